@@ -5,19 +5,20 @@
   recorded finding (the families that can produce such values use batches of one).
 -/
 import Driver.Family
-import Driver.Fam.ScalarsJson
+import PgVerif.Model.ScalarsJsonLib
 import PgVerif.Model.Scalars
 import PgVerif.Spec.Scalars
 import PgVerif.Gen.Scalars
 namespace Driver.Fam.Scalars
 open PgVerif Driver PgVerif.Spec.Scalars PgVerif.Gen.Scalars
 
-/-- the out-of-scope decoders are never reached by these families (no array / numeric / jsonb oids) -/
+/-- the out-of-scope decoders are never reached by these families (no array / numeric / jsonb oids); `encoding/json` is
+the library model of Model/ScalarsJsonLib.lean — the function `C04_json` is stated for -/
 def ext : Model.Scalars.Ext :=
   { decodeArray := fun _ _ => pure (.str (Txt.asc "<array>"))
     decodeNumeric := fun _ => pure (.str (Txt.asc "<numeric>"))
     parseJSONB := fun _ => pure (.str (Txt.asc "<jsonb>"))
-    jsonUnmarshal := Json.jsonUnmarshal }
+    jsonUnmarshal := Model.ScalarsJsonLib.jsonUnmarshal }
 
 def modelOut (oid : Nat) (data : Bytes) : String := showM GoVal.show (Model.Scalars.decodeType ext data oid)
 
@@ -131,7 +132,15 @@ def timesFixed (i : Nat) : List Val :=
      .timestamp false (.fin 1999 12 31 23 59 59 999999), .timestamp false (.fin 2300 1 1 0 0 0 0),
      .timestamp true (.fin 1707 9 22 0 12 43 145224), .timestamp true (.fin 2292 4 10 23 47 16 854775),
      .date (.fin 1 1 1), .date (.fin 9999 12 31), .time 0, .time 86400000000, .time 86399999999,
-     .timetz 52200000000 (-7200), .timetz 52200000000 (-19800), .timetz 52200000000 12600, .timetz 0 1, .timetz 0 (-1)]
+     .timetz 52200000000 (-7200), .timetz 52200000000 (-19800), .timetz 52200000000 12600, .timetz 0 1, .timetz 0 (-1),
+     -- fix 12: fractional seconds, as PostgreSQL prints them (trailing zeros trimmed)
+     .time 45296789000, .time 1, .time 100000, .time 86399999999, .time 500000, .time 45296780000,
+     .timetz 45296789100 (-19800), .timetz 999999 3600, .timetz 86399999990 0,
+     .timestamp false (.fin 2000 1 1 0 0 0 500000), .timestamp false (.fin 1999 12 31 23 59 59 500000),
+     .timestamp true (.fin 2024 2 29 1 2 3 120), .timestamp false (.fin 1 1 1 0 0 0 1), .timestamp true (.fin 9999 12 31 23 59 59 999999),
+     .interval 0 0 500000, .interval 0 0 (-500000), .interval 0 0 1, .interval 0 0 (-1), .interval 14 3 14706500000,
+     .interval (-14) (-3) (-14706500000), .interval 0 0 59999999, .interval 0 0 (-60000001), .interval 0 0 6250000,
+     .interval 0 0 (-9223372036854775808), .interval 0 0 9223372036854775807]
   else if i ≤ 500 then
     -- 20 years per batch: every month boundary of years 1..9999 (+ year 10000 skipped)
     (List.range 20).flatMap fun k =>
@@ -177,11 +186,17 @@ def idsFixed (i : Nat) : List Val :=
        .tid 0 1, .tid 65536 5, .tid 1 5, .tid 65537 7, .tid (2 ^ 32 - 1) 65535, .tid 131074 9,
        .money 0, .money 1234, .money (-1234), .money 5, .money (-5), .money 999999999999999, .money (-999999999999999),
        .money 100, .money 99, .money 450359962737049, .money 29, .money 57, .money 58, .money 115,
+       -- fix 11: beyond 10^15 (the former float formatting printed wrong cents from 7036874417766401 on)
+       .money 1000000000000000, .money 7036874417766401, .money (-7036874417766401), .money 9007199254740993,
+       .money 9223372036854775807, .money (-9223372036854775808), .money (-9223372036854775807), .money 4611686018427387904,
+       -- realistic tids and LSNs (inside the recorded classes A11 / A10 unless the halves are equal)
+       .tid 1 1, .tid 2 7, .tid 255 3, .tid 256 1, .tid 65535 65535, .tid 4294901760 1, .tid 0 0,
+       .pglsn (0x1 * 2 ^ 32 + 0x6B374D8), .pglsn (2 ^ 32), .pglsn 1, .pglsn (0xABCD * 2 ^ 32 + 0xABCD),
        .macaddr [0xaa, 0xbb, 0xcc, 0xdd, 0xee, 0xff], .macaddr (zeros 6), .macaddr8 [0xaa, 0xbb, 0xcc, 0xdd, 0xee, 0xff, 0x11, 0x22],
        .macaddr8 [0, 1, 2, 3, 4, 5, 6, 7]]
     [extra.getD (i - 162) (.money 0)]
 
-def ids : Family := mkFamily "sc_ids" 194 idsFixed 1 fun _ => genIds
+def ids : Family := mkFamily "sc_ids" 213 idsFixed 1 fun _ => genIds
 
 /-! ### bit / varbit: length = idx for the first 4097 cases -/
 
@@ -387,6 +402,12 @@ def typenamesGen (_seed idx _size : Nat) : Case :=
     let es := (pgTypeNames.drop (17 * idx)).take 17
     { tags := ["fixed", "nt"], model := joinWith ";" (es.map fun e => showName (Model.Scalars.typeName e.1)),
       spec := joinWith ";" (es.map fun e => showName (Txt.asc e.2)), args := es.map fun e => toString e.1 }
+  else if idx == 9 then
+    -- the 51 array types DecodeType supports: PostgreSQL's pg_type.typname is `_` ++ element name; the tool has no name for
+    -- them and prints `oid:<n>` (recorded finding ARRNAME)
+    let es := pgArrayTypeNames
+    { tags := ["fixed", "nt", "kf:ARRNAME"], model := joinWith ";" (es.map fun e => showName (Model.Scalars.typeName e.1)),
+      spec := joinWith ";" (es.map fun e => showName (Txt.asc e.2)), args := es.map fun e => toString e.1 }
   else
     let k := idx - 3
     let oids := (List.range 1000).map (· + 1000 * k)
@@ -394,7 +415,7 @@ def typenamesGen (_seed idx _size : Nat) : Case :=
       args := oids.map toString }
 
 def typenames : Family :=
-  { name := "typenames", gen := typenamesGen, fixed := 9,
+  { name := "typenames", gen := typenamesGen, fixed := 10,
     eval := fun args => joinWith ";" (args.map fun o => showName (Model.Scalars.typeName o.toNat!)) }
 
 def all : List Family := [ints, floats, texts, times, days, ids, bits, geo, ranges, raw, malformed, typenames]
